@@ -1254,6 +1254,11 @@ _RBOX['methods'] = [
      'kind': 'function', 'method': True, 'cls': _RBOX, 'module': 'x'},
     {'py': 'rec', 'lean_name': 'B.rec', 'qualname': 'B.rec', 'params': {'k': 'κ'}, 'result': 'Int', 'raises': True,
      'kind': 'function', 'method': True, 'cls': _RBOX, 'module': 'x'}]
+_RBOX2 = {'name': 'B', 'lean_name': 'B', 'tparams': ['κ'], 'deceq': ['κ'],
+          'state': {'d': 'Dict κ (Int × Int)', 'n': 'Int'}}
+_RBOX2['methods'] = [
+    {'py': 'gen', 'lean_name': 'B.gen', 'qualname': 'B.gen', 'params': {}, 'result': 'κ', 'raises': True,
+     'kind': 'generator', 'method': True, 'cls': _RBOX2, 'module': 'x'}]
 _PUT = '    def put(self, k):\n        self.d[k] = [1, 2]\n        return 1\n'
 REJECT2 = [
     ('a lookup that can raise under `and`', 'def f(xs, i):\n    return i >= 0 and xs[i] > 0\n',
@@ -1319,6 +1324,10 @@ REJECT2 = [
     ('a variable index into a fixed-length list',
      'class B:\n    def m(self, k):\n        return self.d[k][self.n]\n',
      'B.m', {'params': {'k': 'κ'}, 'result': 'Int', 'raises': True, 'cls': _RBOX, 'method': True}),
+    ('a generator object kept in a variable (one-shot iterator)',
+     'class B:\n    def gen(self):\n        for j in self.d:\n            yield j\n'
+     '    def m(self, k):\n        it = self.gen()\n        return len(list(it)) + len(list(it))\n',
+     'B.m', {'params': {'k': 'κ'}, 'result': 'Int', 'raises': True, 'cls': _RBOX2, 'method': True}),
     ('a float', 'def f(n):\n    return int(1 / n)\n', 'f', {'params': {'n': 'Int'}, 'result': 'Int', 'raises': True}),
     ('iteration over a set-valued expression', 'def f(xs):\n    out = []\n    for x in set(xs):\n        out.append(x)\n    return out\n',
      'f', {'params': {'xs': 'List Int'}, 'result': 'List Int', 'raises': True}),
